@@ -15,7 +15,7 @@
 #include "seqx.h"
 #include "count_umem.h"
 
-static int g_min = 1, g_extra = 1, g_pool = 0, g_nkeys = 10, g_big = 0;
+static int g_min = 1, g_extra = 1, g_pool = 0, g_nkeys = 10, g_big = 0, g_faults = 0;
 
 struct keydef {
     enum udict_type type; /* type passed to the API */
@@ -68,6 +68,7 @@ struct st {
     struct cumem_mgr cumem;
     struct udict_mgr *mgr;
     struct dict d[2];
+    int faults_armed;
 };
 
 static void val_clear(struct val *v)
@@ -224,7 +225,7 @@ static int api_get(struct udict *d, int k, struct val *got)
 }
 
 /* ---- alphabet ---- */
-enum { O_SET1, O_DEL1, O_DUP, O_COPY, O_IMP12, O_IMP21, O_SET2, O_DEL2, O_ALIAS, O_FREE2 };
+enum { O_SET1, O_DEL1, O_DUP, O_COPY, O_IMP12, O_IMP21, O_SET2, O_DEL2, O_ALIAS, O_FREE2, O_FAULT };
 struct op {
     int kind, k, vi;
 };
@@ -257,6 +258,11 @@ static void build_alphabet(void)
     g_ops[g_nops++] = (struct op){O_ALIAS, 2, 0}; /* "ab"/opaque := "a"/opaque */
     g_ops[g_nops++] = (struct op){O_ALIAS, 0, 5}; /* "a"/opaque := p.cea_708 */
     g_ops[g_nops++] = (struct op){O_FREE2, 0, 0};
+    /* environment deviation: the k-th next memory request is refused (--faults > 0) */
+    if (g_faults) {
+        g_ops[g_nops++] = (struct op){O_FAULT, 1, 0};
+        g_ops[g_nops++] = (struct op){O_FAULT, 2, 0};
+    }
 }
 
 static const char *tname(enum udict_type t)
@@ -268,8 +274,12 @@ static const char *tname(enum udict_type t)
 
 static void c10_opstr(int opi, char *b, size_t n)
 {
-    static const char *kn[] = {"set1", "del1", "dup", "copy", "import2->1", "import1->2", "set2", "del2", "alias1", "free2"};
+    static const char *kn[] = {"set1", "del1", "dup", "copy", "import2->1", "import1->2", "set2", "del2", "alias1", "free2", "refuse"};
     struct op *o = &g_ops[opi];
+    if (o->kind == O_FAULT) {
+        snprintf(b, n, "refuse(memory request #%d from now)", o->k);
+        return;
+    }
     if (o->kind == O_SET1 || o->kind == O_SET2)
         snprintf(b, n, "%s(%s/%s,v%d)", kn[o->kind], K[o->k].name ? K[o->k].name : "-", tname(K[o->k].type), o->vi);
     else if (o->kind == O_DEL1 || o->kind == O_DEL2)
@@ -369,7 +379,19 @@ static int c10_apply(void *p, int opi, bool check)
             return SEQX_DISABLED;
         struct val v;
         mk_val(o->k, o->vi, &v);
+        int faults0 = s->cumem.faults;
         int err = api_set(D->d, o->k, &v);
+        if (!ubase_check(err) && s->cumem.faults > faults0) {
+            /* refused memory: the other attributes are untouched (verify below); this one keeps its old value or,
+             * when the old one had to be removed first, is gone */
+            val_clear(&v);
+            struct val got;
+            api_get(D->d, o->k, &got);
+            if (!got.present)
+                val_clear(&D->v[o->k]);
+            free(got.b);
+            break;
+        }
         if (!ubase_check(err)) {
             val_clear(&v);
             SEQX_FAIL("set:failed", "set of key %d value %d failed with %d", o->k, o->vi, err);
@@ -395,7 +417,10 @@ static int c10_apply(void *p, int opi, bool check)
             udict_free(d2->d);
             dict_clear_model(d2);
         }
+        int faults0 = s->cumem.faults;
         d2->d = o->kind == O_DUP ? udict_dup(d1->d) : udict_copy(s->mgr, d1->d);
+        if (d2->d == NULL && s->cumem.faults > faults0)
+            break; /* refused: no second dictionary, nothing may be left behind (final accounting) */
         if (d2->d == NULL)
             SEQX_FAIL("dup:failed", "dup/copy returned NULL");
         for (int k = 0; k < NK; k++)
@@ -407,7 +432,24 @@ static int c10_apply(void *p, int opi, bool check)
         if (d2->d == NULL)
             return SEQX_DISABLED;
         struct dict *dst = o->kind == O_IMP12 ? d1 : d2, *src = o->kind == O_IMP12 ? d2 : d1;
+        int faults0 = s->cumem.faults;
         int err = udict_import(dst->d, src->d);
+        if (!ubase_check(err) && s->cumem.faults > faults0) {
+            /* refused half-way: every attribute of the destination is the old one, the imported one, or (old one
+             * removed, new one refused) gone */
+            for (int k = 0; k < NK; k++) {
+                if (!src->v[k].present)
+                    continue;
+                struct val got;
+                api_get(dst->d, k, &got);
+                if (!got.present)
+                    val_clear(&dst->v[k]);
+                else if (val_eq(&got, &src->v[k], K[k].base))
+                    val_copy(&dst->v[k], &src->v[k]);
+                free(got.b);
+            }
+            break;
+        }
         if (!ubase_check(err))
             SEQX_FAIL("import:failed", "import returned %d", err);
         for (int k = 0; k < NK; k++)
@@ -420,6 +462,7 @@ static int c10_apply(void *p, int opi, bool check)
         if (dstk >= g_nkeys || srck >= g_nkeys || !d1->v[srck].present)
             return SEQX_DISABLED;
         int err;
+        int faults0 = s->cumem.faults;
         if (K[dstk].base == UDICT_TYPE_STRING) {
             const char *sp = NULL;
             if (!ubase_check(udict_get_string(d1->d, &sp, K[srck].type, K[srck].name)))
@@ -431,11 +474,25 @@ static int c10_apply(void *p, int opi, bool check)
                 return SEQX_DISABLED;
             err = udict_set_opaque(d1->d, op, K[dstk].type, K[dstk].name);
         }
+        if (!ubase_check(err) && s->cumem.faults > faults0) {
+            struct val got;
+            api_get(d1->d, dstk, &got);
+            if (!got.present)
+                val_clear(&d1->v[dstk]);
+            free(got.b);
+            break;
+        }
         if (!ubase_check(err))
             SEQX_FAIL("alias:failed", "aliasing set failed with %d", err);
         val_copy(&d1->v[dstk], &d1->v[srck]);
         break;
     }
+    case O_FAULT:
+        if (s->faults_armed >= g_faults || s->cumem.fail_in != 0)
+            return SEQX_DISABLED;
+        s->cumem.fail_in = o->k;
+        s->faults_armed++;
+        break;
     case O_FREE2:
         if (d2->d == NULL)
             return SEQX_DISABLED;
@@ -510,6 +567,8 @@ static void c10_canon(void *p, struct vbuf *out)
             }
     for (int i = 0; i < n; i++)
         vbuf_u32(out, sz[i]);
+    vbuf_u8(out, (uint8_t)s->cumem.fail_in);
+    vbuf_u8(out, (uint8_t)s->faults_armed);
 }
 
 static bool c10_nontrivial(void *p)
@@ -554,6 +613,7 @@ int main(int argc, char **argv)
         else if (!strcmp(argv[i], "--keys")) g_nkeys = atoi(argv[i + 1]);
         else if (!strcmp(argv[i], "--big")) g_big = atoi(argv[i + 1]);
         else if (!strcmp(argv[i], "--depth")) depth = atoi(argv[i + 1]);
+        else if (!strcmp(argv[i], "--faults")) g_faults = atoi(argv[i + 1]);
     }
     if (g_nkeys > NK)
         g_nkeys = NK;
